@@ -240,6 +240,33 @@ def dep_closure(pid):
     return sorted(seen.values())
 
 
+def needed_gens(pid):
+    """Translators whose generated file the property's Props file depends on, directly or through another
+    property's model / proofs (e.g. C45 uses C39's codec, whose proofs import C39_gen).  Generated files are
+    never copied into a private build directory, so every one of them has to be regenerated there."""
+    index = {}
+    for f in vfiles():
+        index[os.path.basename(f)[:-2]] = os.path.join(COQ, f)
+    todo, seen, gens = [pid + "_props"], set(), []
+    while todo:
+        name = todo.pop()
+        m = re.fullmatch(r"(C\d+)_gen", name)
+        if m and m.group(1).lower() not in gens:
+            gens.append(m.group(1).lower())
+        if name in seen or name not in index or m:
+            continue
+        seen.add(name)
+        try:
+            src = strip_comments(open(index[name]).read())
+        except OSError:
+            continue
+        for mm in re.finditer(r"From\s+PV(?:\.\w+)*\s+Require\s+(?:Import|Export)?\s*([^.]*)\.", src):
+            todo += mm.group(1).split()
+        for mm in re.finditer(r"Require\s+(?:Import|Export)\s+((?:PV\.[\w.]+\s*)+)\.", src):
+            todo += [x.split(".")[-1] for x in mm.group(1).split()]
+    return sorted(gens)
+
+
 def write_if_changed(path, text):
     try:
         if open(path).read() == text:
@@ -347,7 +374,8 @@ def build_proofs(pid, gens=None, extra_targets=()):
     r = ProofResult()
     with Lock(os.path.join(COQ, ".lock")):
         sync_build_dir()
-        gens = gens if gens is not None else [pid.lower()]
+        gens = list(gens) if gens is not None else [pid.lower()]
+        gens += [g for g in needed_gens(pid) if g not in gens]
         gres = run_gens(gens)
         for g, err in gres.items():
             if err:
